@@ -13,6 +13,8 @@ The lift to branches of arbitrary sentences in arbitrary structures is `closing_
 """
 from __future__ import annotations
 
+import json
+
 from .. import logicobl
 from ..common import Ctx
 
@@ -98,7 +100,11 @@ def ident_oracle(ctx: Ctx, data):
                 ctx.fail(f'C05:ident:{lg}:selfIdNeg-open', f'{lg}: a branch with ~a=a stays open', dict(logic=lg, node='~ a = a'), found_input=True)
             if not idn['nonExist']:
                 ctx.fail(f'C05:ident:{lg}:nonExist-open', f'{lg}: a branch with ~E!a stays open', dict(logic=lg, node='~ E!a'), found_input=True)
-        for k, txt in (('selfId', 'a = a'), ('distinctNeg', '~ a = b'), ('exist', 'E!a')):
+        for k in ('selfIdNeg', 'nonExist'):
+            if idn.get(k + '_irregular'):
+                ctx.fail(f'C05:ident:{lg}:{k}-irregular', f'{lg}: the {k} closure depends on which constant is used (closes for some of a, d3, a1 only)',
+                         dict(logic=lg, ident=idn), found_input=True)
+        for k, txt in (('selfId', 'c = c'), ('distinctNeg', '~ c = d for distinct constants (a/b, a/a1, a1/a2, a1/b1, a/d3)'), ('exist', 'E!c')):
             if idn[k]:
                 ctx.fail(f'C05:ident:{lg}:{k}-closes', f'{lg}: a branch with the satisfiable literal {txt} closes', dict(logic=lg, node=txt), found_input=True)
         if not classical and (idn['selfIdNeg'] or idn['nonExist']):
@@ -108,12 +114,60 @@ def ident_oracle(ctx: Ctx, data):
     return n
 
 
+def mapping_oracle(ctx: Ctx, data):
+    """Branch.append accepts a node or a MAPPING; literal nodes that reach a branch as plain mappings must close and be
+    read by the model builder exactly like the ones built by the node factories (the regenerated closure / read table)."""
+    from pytableaux.logics import registry
+    from pytableaux.lang import Argument
+    from pytableaux.proof import Tableau
+    from ..extract import probe
+    n = 0
+    for lg, d in sorted(data.items()):
+        if 'fatal' in d:
+            continue
+        logic = registry(lg)
+        modal = logic.Meta.modal
+        reads = {json.dumps(S): v for S, v in d['reads']}
+        for S, closes in d['closure']:
+            if not S:
+                continue
+            n += 1
+            tab = Tableau(logic, Argument(probe.Z2, [probe.Z1]))
+            b = tab[0]
+            for ng, des in S:
+                m = dict(sentence=~probe.A if ng else probe.A)
+                if des is not None:
+                    m['designated'] = bool(des)
+                if modal:
+                    m['world'] = 0
+                b.append(m)
+            tab.step()
+            key = f'{lg}:{json.dumps(S)}'
+            if b.closed != closes:
+                ctx.fail(f'C05:mapping-node:{lg}:closure', f'{lg}: literal nodes {S} appended as mappings close={b.closed}, the same literals built by the '
+                         f'node factories close={closes}', dict(logic=lg, literals=S, via='Branch.append(mapping)'), found_input=True)
+                continue
+            if not b.closed and json.dumps(S) in reads:
+                try:
+                    tab.build()
+                    mod = logic.Model().read_branch(b)
+                    val = str(mod.value_of(probe.A, world=0) if modal else mod.value_of(probe.A))
+                except Exception as e:  # noqa
+                    val = f'{type(e).__name__}: {e}'
+                if val != reads[json.dumps(S)]:
+                    ctx.fail(f'C05:mapping-node:{lg}:read', f'{lg}: the model builder reads {val} off the open literal set {S} appended as mappings; '
+                             f'off factory-built nodes it reads {reads[json.dumps(S)]}', dict(logic=lg, literals=S, via='Branch.append(mapping)'),
+                             found_input=True)
+    return n
+
+
 def run(ctx: Ctx):
     data = logicobl.regenerate()
     cats = dict(closure_exact=h_closure, read_exact=h_read, closure_total=h_simple('closure_total'),
                 read_total=h_simple('read_total'), sound_core=h_simple('sound_core'), __issue__=h_issue)
     logicobl.decide_rows(ctx, cats, THMS, extra_modules=['Ptx.Props.C05'])
     n = ident_oracle(ctx, data)
+    n += mapping_oracle(ctx, data)
     rows = 0
     for lg, d in data.items():
         if 'fatal' in d:
